@@ -17,6 +17,10 @@ with signal/constant/component declarations, processes, blocks, instantiations, 
                        parsed earlier in the same file); instantiated entities/components and named formals likewise;
 * `width`              target and value of every assignment, formal and actual of every port association have the same shape
                        (scalar / vector of n elements) whenever both are syntactically evident (`Ty.unknown` otherwise);
+                       bit-string literals have their true width (`x"…"` 4 bits per digit, `o"…"` 3, `b"…"`/`"…"` 1, `'c'` scalar)
+                       and are compared with the declared width of the assignment target (slices included), of the declared
+                       object they initialise (`:= "…"`), of the other operand of a comparison / logical operator / `+` `-`, and of
+                       the CASE selector they are a choice of (sub-class literal; `(others => …)` is exempt);
 * `var-read-before-write`  in every process, a VARIABLE of that process is assigned on every path before it is read;
 * `end-name`           the name repeated after END is the unit's name.
 
@@ -70,7 +74,19 @@ partial def lexLine (line : Nat) (cs : List Char) (acc : Array T) (probs : Array
     else if c == '-' && rest.head? == some '-' then (acc, probs)
     else if isWordStart c then
       let w := cs.takeWhile isWordChar
-      lexLine line (cs.drop w.length) (acc.push ⟨.word (String.ofList w), line⟩) probs
+      let after := cs.drop w.length
+      -- bit-string literal  x"…" (4 bits per digit)  o"…" (3)  b"…" (1); underscores do not count.
+      -- It becomes a string token with one character per *bit*, so that its length is its width.
+      let base := (String.ofList w).toLower
+      let bitsPerDigit : Option Nat := if base == "x" || base == "ux" || base == "sx" then some 4
+        else if base == "o" || base == "uo" || base == "so" then some 3
+        else if base == "b" || base == "ub" || base == "sb" then some 1 else none
+      match bitsPerDigit, after with
+      | some k, '"' :: rest =>
+        let body := (rest.takeWhile (· != '"'))
+        let digits := body.filter (· != '_')
+        lexLine line (rest.drop (body.length + 1)) (acc.push ⟨.str (String.ofList (digits.flatMap fun d => List.replicate k d)), line⟩) probs
+      | _, _ => lexLine line after (acc.push ⟨.word (String.ofList w), line⟩) probs
     else if c.isDigit then
       let w := cs.takeWhile isWordChar
       lexLine line (cs.drop w.length) (acc.push ⟨.num (String.ofList w), line⟩) probs
@@ -135,6 +151,7 @@ structure Decl where
   ty : Ty := .unknown
   mode : String := ""
   line : Nat := 0
+  init : Option Expr := none      -- `:= expr` of an object declaration
   deriving Repr, Inhabited
 
 structure Iface where   -- entity or component
@@ -430,11 +447,12 @@ def parseObjectDecl (kind : String) : P Decl := do
   let (n, l) ← ident s!"{kind} name"
   expectSym ":"
   let ty ← parseType
+  let mut init : Option Expr := none
   if ← atSym ":=" then
     advance
-    let _ ← parseExpr
+    init := some (← parseExpr)
   expectSym ";"
-  return { name := n, kind := kind, ty := ty, line := l }
+  return { name := n, kind := kind, ty := ty, line := l, init := init }
 
 mutual
   partial def parseStmts (stop : List String) : P (List Stmt) := do
@@ -860,6 +878,46 @@ def widthMismatch (a b : Ty) : Bool :=
   | _, .unknown => false
   | x, y => x != y
 
+def isLiteral : Expr → Bool
+  | .str _ => true
+  | .chr _ => true
+  | _ => false
+
+def relOps : List String := ["=", "/=", "<", "<=", ">", ">="]
+
+/-- a bit-string / character literal that is an operand of a comparison, a logical operator or `+`/`-` must have the width of
+the other operand when that one has an evident width (`width`, sub-class literal) -/
+partial def literalOperandProblems (env : Env) (line : Nat) : Expr → List Problem
+  | .bin op a b =>
+    let here :=
+      if (relOps.contains op || binOpsLogical.contains op || op == "+" || op == "-") && (isLiteral a || isLiteral b) then
+        let ta := typeOf env a
+        let tb := typeOf env b
+        if widthMismatch ta tb then
+          [⟨"width", "", line, s!"literal operand of `{op}`: left is {tyStr ta}, right is {tyStr tb}"⟩] else []
+      else []
+    here ++ literalOperandProblems env line a ++ literalOperandProblems env line b
+  | .call _ args _ => args.flatMap (literalOperandProblems env line)
+  | .slice e _ _ => literalOperandProblems env line e
+  | .others e => literalOperandProblems env line e
+  | .agg c e => literalOperandProblems env line c ++ literalOperandProblems env line e
+  | .un _ e => literalOperandProblems env line e
+  | .attr e _ => literalOperandProblems env line e
+  | _ => []
+
+/-- initial values of object declarations (`SIGNAL s : T := "…"`, `CONSTANT C : T := x"…"`) must have the declared width -/
+def initCheck (what : String) (decls : List Decl) : List Problem :=
+  decls.flatMap fun d =>
+    match d.init with
+    | some e =>
+      let te := typeOf [] e
+      (if widthMismatch d.ty te then
+        [⟨"width", d.name, d.line, s!"{d.kind} `{d.name}` in {what} is {tyStr d.ty}, its initial value is {if isLiteral e then "a literal of " else ""}{tyStr te}"⟩]
+       else []) ++ literalOperandProblems [] d.line e
+    | none => []
+
+def exprLine (e : Expr) : Nat := ((exprNames e).map (·.2)).head?.getD 0
+
 /-- uses of names in an expression: `undeclared` unless declared in `env` or visible through a use clause -/
 def checkUses (env : Env) (visible : List String) (e : Expr) : List Problem :=
   (exprNames e).filterMap fun (n, l) =>
@@ -896,7 +954,7 @@ partial def checkStmts (c : Ctx) (assigned : List String) (ss : List Stmt) : Lis
   ss.foldl (fun (acc : List String × List Problem) s =>
     let (asg, ps) := acc
     let reads (e : Expr) (asg : List String) : List Problem :=
-      checkUses c.env c.visible e ++
+      checkUses c.env c.visible e ++ literalOperandProblems c.env (exprLine e) e ++
       (exprNames e).filterMap fun (n, l) =>
         if c.vars.contains (lcs n) && !asg.contains (lcs n) then
           some ⟨"var-read-before-write", n, l, s!"variable `{n}` is read before it is assigned in this activation"⟩ else none
@@ -915,7 +973,7 @@ partial def checkStmts (c : Ctx) (assigned : List String) (ss : List Stmt) : Lis
       let tt := typeOf c.env t
       let tr := typeOf c.env rhs
       let p3 := if widthMismatch tt tr then
-          [⟨"width", (baseName t).getD "", l, s!"target is {tyStr tt}, value is {tyStr tr}"⟩] else []
+          [⟨"width", (baseName t).getD "", l, s!"target is {tyStr tt}, value is {if isLiteral rhs then "a literal of " else ""}{tyStr tr}"⟩] else []
       let asg' := match t, isVar with
         | .name n _, true => lcs n :: asg
         | _, _ => asg
@@ -930,7 +988,11 @@ partial def checkStmts (c : Ctx) (assigned : List String) (ss : List Stmt) : Lis
         | none => asg
       (asg', ps ++ condPs ++ allPs)
     | .cases sel alts =>
-      let selPs := reads sel asg
+      let selPs := reads sel asg ++ alts.filterMap fun (ch, _) =>
+        match ch with
+        | some che => if widthMismatch (typeOf c.env sel) (typeOf c.env che) then
+            some ⟨"width", "", exprLine sel, s!"CASE selector is {tyStr (typeOf c.env sel)}, choice is a literal of {tyStr (typeOf c.env che)}"⟩ else none
+        | none => none
       let results := alts.map fun (_, body) => checkStmts c asg body
       let hasOthers := alts.any fun (ch, _) => ch.isNone
       let asg' := match results, hasOthers with
@@ -957,7 +1019,7 @@ partial def checkConcs (units : List Iface) (c : Ctx) (what : String) (concs : L
     | .proc p =>
       let region : Region := ⟨s!"process {p.label}", p.decls⟩
       let c' : Ctx := { c with env := region :: c.env, vars := (p.decls.filter (·.kind == "variable")).map (lcs ·.name) }
-      dupCheck region.what p.decls ++
+      dupCheck region.what p.decls ++ initCheck region.what p.decls ++
       p.sens.flatMap (checkUses c.env c.visible) ++
       (checkStmts c' [] p.body).2
     | .assign s => (checkStmts { c with vars := [] } [] [s]).2
@@ -968,7 +1030,7 @@ partial def checkConcs (units : List Iface) (c : Ctx) (what : String) (concs : L
         | .block l ln _ _ _ => some { name := l, kind := "label", line := ln }
         | .assign _ => none
       let region : Region := ⟨s!"block {label}", ds ++ labels⟩
-      dupCheck region.what region.decls ++
+      dupCheck region.what region.decls ++ initCheck region.what ds ++
       cs.flatMap (fun i => dupCheck s!"component {i.name}" i.ports) ++
       checkConcs (units ++ cs) { c with env := ⟨region.what, ds⟩ :: c.env } region.what body
     | .inst label unit isEntity assocs l =>
@@ -1023,7 +1085,7 @@ def checkUnits (us : List DUnit) : List Problem := Id.run do
       pendingUse := false
       lib := lib ++ [{ name := n, kind := "package", line := l }]
       let decls := fs.map (fun f => ({ name := f.name, kind := "function", line := f.line } : Decl)) ++ cs
-      out := out ++ dupCheck s!"package {n}" decls
+      out := out ++ dupCheck s!"package {n}" decls ++ initCheck s!"package {n}" cs
       for f in fs do out := out ++ dupCheck s!"function {f.name}" (f.params ++ f.decls)
       packages := packages ++ [(lcs n, decls.map (lcs ·.name))]
     | .packageBody n l fs =>
@@ -1051,7 +1113,7 @@ def checkUnits (us : List DUnit) : List Problem := Id.run do
           | .block lb ln _ _ _ => some { name := lb, kind := "label", line := ln }
           | .assign _ => none
         let what := s!"entity/architecture {ent.name}"
-        out := out ++ dupCheck what (ent.ports ++ ds ++ labels)
+        out := out ++ dupCheck what (ent.ports ++ ds ++ labels) ++ initCheck what ds
         for c in cs do out := out ++ dupCheck s!"component {c.name}" c.ports
         let ctx : Ctx := { env := [⟨what, ent.ports ++ ds⟩], visible := visible, vars := [] }
         -- entities analysed so far (without the one being defined: no recursion) + local components
